@@ -449,7 +449,7 @@ pub fn run_world<'s, 'env: 's>(world: &'env WorldSpec, scratch: &'env Scratch, p
     let n = world.nodes.len();
     let sched = Sched::new(n, world.sched.policy.clone(), world.sched.seed, world.sched.max_yields);
     let outs: Arc<Mutex<Vec<Option<NodeOut>>>> = Arc::new(Mutex::new((0..n).map(|_| None).collect()));
-    let watchdog = Duration::from_secs(60);
+    let watchdog = Duration::from_secs(240);
     let report = match pool {
         Some((pool, scope)) => {
             pool.ensure(scope, n);
